@@ -381,15 +381,15 @@ var goodValues = map[string][]string{
 	"int64":    {"0", "42", "-7", "9223372036854775807", "-9223372036854775808", ""},
 	"uint":     {"0", "42", "18446744073709551615", ""},
 	"uint64":   {"0", "42", "18446744073709551615", ""},
-	"string":   {"", "v", "a=b", "=", "-n", "--", "-", "x y", "é", "--name=v", "\x00", "\xff\xfe", "a,b|c"},
+	"string":   {"", "v", "a=b", "=", "-n", "--", "-", "x y", "é", "--name=v", "\x00", "\xff\xfe", "a,b|c", "\"q\"", "'q'", "\"\"", "''", "\"", "'", "\"a'", "`x`", "$HOME", "%s", "a\\b"},
 	"float64":  {"0", "1.5", "-2e10", "NaN", "Inf", "-Inf", "1e-320", "", ".5"},
 	"duration": {"0", "1s", "1h2m3.5s", "-5ms", "", "2562047h47m16.854775807s"},
 	"bytes":    {"", "aGk=", "AA==", "d2hvaXNuaWFu", "/+8="},
 }
 
 var badValues = map[string][]string{
-	"bool":     {"yes", "2", "tru", " true", "-d"},
-	"int":      {"abc", "1.5", "9223372036854775808", "--", "-", "1 ", "0x"},
+	"bool":     {"yes", "2", "tru", " true", "-d", "\"true\"", "'1'"},
+	"int":      {"abc", "1.5", "9223372036854775808", "--", "-", "1 ", "0x", "\"5\"", "'5'", "\"\""},
 	"int64":    {"abc", "1e3", "-9223372036854775809", "-n"},
 	"uint":     {"-1", "abc", "18446744073709551616", "+-1"},
 	"uint64":   {"-1", "abc", "18446744073709551616"},
